@@ -187,7 +187,7 @@ class Spec(c01.Spec):
         self.idx = idx
         self.tier = tier
         self.name = "c25-continuation-cfg%d-%s" % (idx, tier)
-        self.max_depth = 4 if tier == "quick" else 6
+        self.max_depth = (5 if idx == 0 else 4) if tier == "quick" else 6
         self.dev = 1 if tier == "quick" else 2
         self.T = c01.calls()
         self.menu = PROFILE_U
